@@ -126,7 +126,7 @@ func kafkaBatchRun(res *mon.Result, c *schemaCase, file string, idx int, exps []
 	res.LogCase("schemas case %d: kafkaMdm %s, %d lines + %d marker lines", idx, desc, len(exps), 2*flushMaxNum)
 	w := func(extra map[string]interface{}) map[string]interface{} {
 		m := wit(extra)
-		m["route"] = desc
+		m["kafka_route"] = desc
 		return m
 	}
 
